@@ -568,9 +568,12 @@ Definition sel_answers (G : sgraph) (O : oracles) (pass : nat) (tau : str) (limi
 Definition sel_events (limit : Z) (items : list selector) : list event :=
   flat_map (fun s => match sel_query limit s with Some q => [EQ q] | None => [] end) items.
 
-(** [_collect_every_target_node]: a Python [set], then [list(...)] *)
+(** [_collect_every_target_node]: an insertion-ordered [dict] (first
+    occurrences, in answer order), then [list(...)]; old shape: a Python
+    [set], whose iteration order is the oracle [o_set] *)
 Definition collect (G : sgraph) (O : oracles) (selpass setpass : nat) (tau : str) (limit : Z) (items : list selector) : list str :=
-  o_set O setpass (dedup str_eqb (flat_map (sel_answers G O selpass tau limit) items)).
+  let firsts := dedup str_eqb (flat_map (sel_answers G O selpass tau limit) items) in
+  if y_targets_first_occurrence_order then firsts else o_set O setpass firsts.
 
 (** the inverse part does not yield again a statement whose subject is a
     target (it was yielded with the direct triples of that subject) *)
